@@ -155,6 +155,9 @@ pub struct World {
     drops: Arc<AtomicUsize>,
     custom_mem: Option<(*mut u8, usize)>,
     pool: TrackingMemoryPool,
+    pool_b: TrackingMemoryPool,
+    /// which pool each claimed allocation is accounted in (false = pool, true = pool_b)
+    claim_pool: BTreeMap<u32, bool>,
     /// model: claimed allocations base -> size
     claimed: BTreeMap<u32, (usize, usize)>,
     next_alloc: u32,
@@ -188,6 +191,8 @@ pub enum Op {
     IntoBuilder(u8),
     AndAssign(u8),
     Claim(u8),
+    /// claim in a second, distinct pool (any prior reservation must be released from the first)
+    ClaimB(u8),
     Drop(u8),
     Grow(u8),
     Freeze(u8),
@@ -236,7 +241,7 @@ impl World {
         let region = (buf.as_ptr() as usize, REGION_BYTES);
         let snap = buf.as_slice().to_vec();
         RELEASE_CALLS.with(|c| c.set(0));
-        World { kind, slots: vec![Slot { h: H::Buf(buf), snap, alloc: 0 }], next_alloc: 1, region, drops, custom_mem, pool: TrackingMemoryPool::default(), claimed: BTreeMap::new(), exports: 0, max_handles, alias: BTreeMap::new() }
+        World { kind, slots: vec![Slot { h: H::Buf(buf), snap, alloc: 0 }], next_alloc: 1, region, drops, custom_mem, pool: TrackingMemoryPool::default(), pool_b: TrackingMemoryPool::default(), claim_pool: BTreeMap::new(), claimed: BTreeMap::new(), exports: 0, max_handles, alias: BTreeMap::new() }
     }
 
     fn in_region(&self, h: &H) -> bool {
@@ -250,7 +255,7 @@ impl World {
     pub fn apply(&mut self, op: &Op) -> Result<bool, Fail> {
         let idx = match op {
             Op::Clone(i) | Op::Slice(i) | Op::Wrap(i) | Op::WrapBool(i) | Op::Unwrap(i) | Op::Export(i) | Op::Import(i) | Op::IntoMutable(i) | Op::IntoVec(i) | Op::UnaryMut(i)
-            | Op::IntoBuilder(i) | Op::AndAssign(i) | Op::Claim(i) | Op::Drop(i) | Op::Grow(i) | Op::Freeze(i) | Op::VecToBuf(i) | Op::Shrink(i) | Op::ToBytes(i) => *i as usize,
+            | Op::IntoBuilder(i) | Op::AndAssign(i) | Op::Claim(i) | Op::ClaimB(i) | Op::Drop(i) | Op::Grow(i) | Op::Freeze(i) | Op::VecToBuf(i) | Op::Shrink(i) | Op::ToBytes(i) => *i as usize,
         };
         if idx >= self.slots.len() {
             return Ok(false);
@@ -512,24 +517,27 @@ impl World {
                     *v &= (i % 3 != 0) as u8;
                 }
             }
-            Op::Claim(_) => {
+            Op::Claim(_) | Op::ClaimB(_) => {
+                let use_b = matches!(op, Op::ClaimB(_));
                 let s = &self.slots[idx];
+                let pool: &TrackingMemoryPool = if use_b { &self.pool_b } else { &self.pool };
                 let cap = match &s.h {
                     H::Buf(b) => {
-                        b.claim(&self.pool);
+                        b.claim(pool);
                         b.capacity()
                     }
                     H::Mut(m) => {
-                        m.claim(&self.pool);
+                        m.claim(pool);
                         m.capacity()
                     }
                     H::Bool(b) => {
-                        b.claim(&self.pool);
+                        b.claim(pool);
                         b.inner().capacity()
                     }
                     _ => return Ok(false),
                 };
                 self.claimed.insert(s.alloc, (cap, cap));
+                self.claim_pool.insert(s.alloc, use_b);
             }
             Op::Drop(_) => {
                 let s = self.slots.remove(idx);
@@ -642,11 +650,15 @@ impl World {
         }
         self.alias.retain(|k, _| live.contains(k));
         self.claimed.retain(|b, _| live.contains(b));
-        let lo: usize = self.claimed.values().map(|v| v.0).sum();
-        let hi: usize = self.claimed.values().map(|v| v.1).sum();
-        let got = self.pool.used();
-        if got < lo || got > hi {
-            return fail("pool accounting differs from live claimed regions", format!("{at}: pool.used()={got}, model=[{lo},{hi}] ({:?})", self.claimed));
+        self.claim_pool.retain(|b, _| live.contains(b));
+        for (which, pool) in [(false, &self.pool), (true, &self.pool_b)] {
+            let mine = |k: &u32| self.claim_pool.get(k).copied().unwrap_or(false) == which;
+            let lo: usize = self.claimed.iter().filter(|(k, _)| mine(k)).map(|(_, v)| v.0).sum();
+            let hi: usize = self.claimed.iter().filter(|(k, _)| mine(k)).map(|(_, v)| v.1).sum();
+            let got = pool.used();
+            if got < lo || got > hi {
+                return fail("pool accounting differs from live claimed regions", format!("{at}: pool{}.used()={got}, model=[{lo},{hi}] ({:?} in pools {:?})", if which { "B" } else { "A" }, self.claimed, self.claim_pool));
+            }
         }
         Ok(())
     }
@@ -661,8 +673,8 @@ impl World {
         if self.kind == Kind::Custom && self.drops.load(Ordering::SeqCst) != 1 {
             return fail("owner not released exactly once after last handle died", format!("teardown: releases={}", self.drops.load(Ordering::SeqCst)));
         }
-        if self.pool.used() != 0 {
-            return fail("pool not empty after every region died", format!("pool.used()={}", self.pool.used()));
+        if self.pool.used() != 0 || self.pool_b.used() != 0 {
+            return fail("pool not empty after every region died", format!("pool.used()={} poolB.used()={}", self.pool.used(), self.pool_b.used()));
         }
         let rc = RELEASE_CALLS.with(|c| c.get());
         if rc != self.exports {
@@ -681,9 +693,10 @@ impl World {
             let rel: i64 = if p >= self.region.0 && p < self.region.0 + self.region.1 { (p - self.region.0) as i64 } else { -1 };
             let base = alloc_base(&s.h).unwrap_or(0);
             let claimed = self.claimed.contains_key(&s.alloc);
+            let in_b = self.claim_pool.get(&s.alloc).copied().unwrap_or(false);
             let off_in_alloc = if base != 0 { (p.wrapping_sub(base)) as u64 } else { 0 };
             bases.push(s.alloc + 1);
-            descs.push((kind_tag(&s.h), rel, s.snap.len() as u64, vcore::fnv64(&s.snap), claimed, off_in_alloc));
+            descs.push((kind_tag(&s.h) + if in_b { 100 } else { 0 }, rel, s.snap.len() as u64, vcore::fnv64(&s.snap), claimed, off_in_alloc));
         }
         // sharing structure: for each handle, the sorted multiset of descriptor ids it shares an allocation with
         let mut out: Vec<Vec<u64>> = vec![];
@@ -735,6 +748,7 @@ pub fn all_ops(max_handles: usize) -> Vec<Op> {
             Op::IntoBuilder(i),
             Op::AndAssign(i),
             Op::Claim(i),
+            Op::ClaimB(i),
             Op::Drop(i),
             Op::Grow(i),
             Op::Freeze(i),
